@@ -2,6 +2,7 @@
 from vf.core import Gen
 
 META = dict(
+    technique='solver-based bounded symbolic execution of the real code (CrossHair + z3), counterexample replay; the ALL-flag (resource monitor) runs execute solver-chosen inputs outside the tracer',
     functions_encoded=["pydra.engine.audit.Audit.start_audit / audit_task / monitor / finalize_audit / audit_message / audit_check",
                        "pydra.utils.messenger.send_message / make_message", "pydra.engine.job.Job.run (hook points of the audit)"],
     stubs=["vf/engine.py", "an in-memory Messenger subclass (public plug-in API) collects the records; the h_prov_file_* conditions use the real FileMessenger with its default location and read <job dir>/messages/*.jsonld", "fault injection: Audit.audit_task / Audit.monitor replaced by a raising function (h_prov_preamble_fault)"],
